@@ -715,6 +715,13 @@ func main() {
 		fail("usage: translator <repo> <outdir>")
 	}
 	repo, out := os.Args[1], os.Args[2]
+	var err error
+	if repo, err = filepath.Abs(repo); err != nil {
+		fail("%v", err)
+	}
+	if out, err = filepath.Abs(out); err != nil {
+		fail("%v", err)
+	}
 	genConsts(repo, out)
 	genVersions(repo, out)
 	genRedact(repo, out)
